@@ -215,7 +215,7 @@ pub fn run_case(rec: &mut Recorder, rng: &mut Rng, which: &str, thorough: bool, 
     };
     // one scenario in eight: a wide frontier (12..16 lazy heads, 24 in the thorough tier) whose
     // heads branch off at different depths, delivered to some replicas without one or two leaves
-    let wide = rng.chance(1, 8);
+    let wide = rng.chance(if which == "C04" { 2 } else { 1 }, 8);
     let d = if wide {
         rec.count("shape:wide-frontier");
         let leaves = rng.range(12, if thorough { 24 } else { 16 }) as usize;
